@@ -31,6 +31,7 @@ func checkC20(c *Ctx) {
 	c.Rule("C20/R6", "protocol tables: the form fields the client writes for files and commit are accepted by the server; the field it writes for abort is rejected; every part named \"file\" reaches the call that stores and indexes it (no path on which the form name can be \"file\" returns to the head of the part loop without it)")
 	c.Rule("C20/R7", "every in-repo fs.Writer.CloseWithError discards: it never publishes the file and, where the file already exists on disk, removes it")
 
+	c.Rule("C20/R9", "a file without benchmark lines fails the upload: the function that stores one file returns success only where that file's record count is known to be non-zero (or returns the count and every caller tests it)")
 	c.Rule("C20/R8", "an upload ID is never handed out twice: the statement that creates the Uploads row is a plain INSERT (no REPLACE, no OR REPLACE/IGNORE, no ON CONFLICT/ON DUPLICATE KEY), so an ID that already exists is refused by the primary key instead of silently replacing the committed upload (and, through ON DELETE CASCADE, its records)")
 	pats := []string{"./storage", "./storage/app", "./storage/db", "./storage/fs", "./storage/fs/local", "./storage/benchfmt"}
 	p := mustLoad(c, loadOpts{}, pats...)
@@ -65,6 +66,7 @@ func c20(c *Ctx, p *Prog) {
 	c20Protocol(c, p)
 	c20CloseWithError(c, p, []string{"storage/fs", "storage/fs/local"})
 	c20InsertOnly(c, p)
+	c20EmptyFile(c, p)
 }
 
 func isErrorType(t types.Type) bool {
@@ -1658,4 +1660,171 @@ func c20FreshMetaAll(c *Ctx, p *Prog, R string) {
 			c20FreshMeta(c, p, R, fn, lp)
 		}
 	}
+}
+
+// c20EmptyFile: a file without benchmark lines fails the upload. In the function that stores one file and queues its
+// records, a nil error is returned only where the count of records read from that file is known to be non-zero — or the
+// count is returned and every caller tests it before going on.
+func c20EmptyFile(c *Ctx, p *Prog) {
+	const R = "C20/R9"
+	n := 0
+	for _, fn := range p.Funcs("storage/app") {
+		var lp *loopInfo
+		for _, l := range naturalLoops(fn) {
+			for b := range l.Blocks {
+				for _, in := range b.Instrs {
+					if call, ok := in.(*ssa.Call); ok && objIs(calleeObj(&call.Call), stDBPkg, "Upload", "InsertRecord") {
+						lp = l
+					}
+				}
+			}
+		}
+		if lp == nil {
+			continue
+		}
+		n++
+		site := p.pos(fn.Pos())
+		// the per-file record counter: an integer loop variable stepped by one
+		var counters []*ssa.Phi
+		for _, in := range lp.Header.Instrs {
+			phi, ok := in.(*ssa.Phi)
+			if !ok || !isInteger(phi.Type()) {
+				continue
+			}
+			for i, e := range phi.Edges {
+				if lp.Blocks[lp.Header.Preds[i]] {
+					if bo, ok := e.(*ssa.BinOp); ok && bo.Op == token.ADD && bo.X == ssa.Value(phi) {
+						if k, ok := constInt(bo.Y); ok && k == 1 {
+							counters = append(counters, phi)
+						}
+					}
+				}
+			}
+		}
+		isCounter := func(v ssa.Value) bool {
+			for _, ph := range counters {
+				if v == ssa.Value(ph) {
+					return true
+				}
+				// read back through the named result's slot
+				if ld, ok := v.(*ssa.UnOp); ok && ld.Op == token.MUL {
+					if al, ok := ld.X.(*ssa.Alloc); ok {
+						for _, st := range storesInto(al) {
+							if st.Val == ssa.Value(ph) {
+								return true
+							}
+						}
+					}
+				}
+			}
+			return false
+		}
+		nonZeroAt := func(b *ssa.BasicBlock, isCount func(ssa.Value) bool) bool {
+			for _, f := range factsAt(b) {
+				bo, ok := f.Cond.(*ssa.BinOp)
+				if !ok {
+					continue
+				}
+				var other ssa.Value
+				switch {
+				case isCount(bo.X):
+					other = bo.Y
+				case isCount(bo.Y):
+					other = bo.X
+				default:
+					continue
+				}
+				if k, ok := constInt(other); !ok || k != 0 {
+					continue
+				}
+				if (bo.Op == token.EQL && !f.True) || (bo.Op == token.NEQ && f.True) || (bo.Op == token.GTR && f.True && isCount(bo.X)) || (bo.Op == token.LSS && f.True && isCount(bo.Y)) || (bo.Op == token.LEQ && !f.True && isCount(bo.X)) {
+					return true
+				}
+			}
+			return false
+		}
+		guardedHere := true
+		nOK := 0
+		for _, b := range fn.Blocks {
+			ret, ok := b.Instrs[len(b.Instrs)-1].(*ssa.Return)
+			if !ok || len(ret.Results) == 0 {
+				continue
+			}
+			last := retLast(ret)
+			isNil := false
+			if k, ok := last.(*ssa.Const); ok && k.IsNil() {
+				isNil = true
+			}
+			// named result read back: nil on this path if the slot's last store is nil — treat "not provably non-nil" as success
+			if !isNil && isNonNilValue(last) {
+				continue
+			}
+			if !isNil {
+				// a named error result: success unless facts say err != nil
+				errKnown := false
+				for _, f := range factsAt(b) {
+					if bo, ok := f.Cond.(*ssa.BinOp); ok && bo.Op == token.NEQ && f.True {
+						if k, ok := bo.Y.(*ssa.Const); ok && k.IsNil() {
+							errKnown = true
+						}
+					}
+				}
+				if errKnown {
+					continue
+				}
+			}
+			if !reachFrom(lp.Header, nil)[b] {
+				continue
+			}
+			nOK++
+			if !nonZeroAt(b, isCounter) {
+				guardedHere = false
+			}
+		}
+		if guardedHere && nOK > 0 {
+			c.OK(R, fnName(fn)+":empty-file-is-an-error", site, "success is returned only where the file's record count is known to be non-zero")
+			continue
+		}
+		// the count is handed to the callers: each must test it
+		countIdx := -1
+		res := fn.Signature.Results()
+		for i := 0; i < res.Len(); i++ {
+			if isInteger(res.At(i).Type()) {
+				countIdx = i
+			}
+		}
+		callersOK, nCallers := countIdx >= 0, 0
+		for _, g := range p.Funcs("storage/app") {
+			eachInstr(g, func(_ *ssa.BasicBlock, in ssa.Instruction) {
+				call, ok := in.(*ssa.Call)
+				if !ok || call.Call.StaticCallee() != fn || countIdx < 0 {
+					return
+				}
+				nCallers++
+				var cnt ssa.Value
+				for _, r := range *call.Referrers() {
+					if ex, ok := r.(*ssa.Extract); ok && ex.Index == countIdx {
+						cnt = ex
+					}
+				}
+				if cnt == nil {
+					callersOK = false
+					return
+				}
+				// every block the call's success continuation reaches that appends/commits must know cnt != 0: approximate by
+				// requiring some block dominated by the call where cnt != 0 is a fact and no Commit is reachable without it
+				tested := false
+				for _, b := range g.Blocks {
+					if call.Block().Dominates(b) && nonZeroAt(b, func(v ssa.Value) bool { return v == cnt }) {
+						tested = true
+					}
+				}
+				if !tested {
+					callersOK = false
+				}
+			})
+		}
+		c.Check(callersOK && nCallers > 0, R, fnName(fn)+":empty-file-is-an-error", site, "the record count is returned and every caller tests it", "a file from which no benchmark line was read is stored and reported as a success: the function that writes one file returns a nil error without its own record count being known to be non-zero (and no caller tests that count per file), so an upload containing such a file is committed instead of being rejected and the file stays in the store")
+	}
+	c.Floor(R, "functions that store one file and queue its records", n, 1)
 }
